@@ -45,6 +45,10 @@ def run(ctx):
     rep = ctx.rep
     for cfg in (CONFIGS_QUICK if ctx.tier == "quick" else CONFIGS_THOROUGH):
         crate = ctx.crate(cfg)
+        if cfg in ("K1", "K3"):
+            # DER times carry no fractional seconds and use the prescribed form: the shared time helpers' rules
+            import c09
+            common.borrow_rules(rep, lambda: (c09.single(cfg, crate, rep), c09.helper(cfg, crate, rep)), "C09.", "C04.time")
         arts = [common.artefact(crate, f) for f in (CERT_FN, CSR_FN, CRL_FN)]
         rep.fn(CERT_FN, CSR_FN, CRL_FN, SIGN_DER, "key_pair::serialize_public_key_der")
         nb = nbits = nset = nint = nraw = 0
@@ -116,7 +120,26 @@ def run(ctx):
                 if callee.endswith("DERWriter::write_der"):
                     sites.append(name)
         want = sorted([SIGN_DER, CSR_FN, "certificate::CertificateParams::write_extension_request_attribute", CERT_FN])
-        rep.ob("C04.writer", "%s|write_der-callers" % cfg, sorted(sites) == want, "write_der (raw pass-through) is used at exactly the four audited sites", expected=want, found=sorted(sites))
+        # a helper introduced by a later change belongs to the audited function(s) it is reached from
+        import c10
+        from interp import known_fns
+        G, _ = c10.call_graph(crate)
+        owners = set()
+        for s_ in sites:
+            todo, seen_ = [s_.split("::{closure")[0]], set()
+            while todo:
+                f_ = todo.pop()
+                if f_ in seen_:
+                    continue
+                seen_.add(f_)
+                if f_ in known_fns(crate.name):
+                    owners.add(f_)
+                    continue
+                callers = {c.split("::{closure")[0] for c, es in G.items() if f_ in es and c.split("::{closure")[0] != f_}
+                if not callers:
+                    owners.add(f_)
+                todo.extend(callers)
+        rep.ob("C04.writer", "%s|write_der-callers" % cfg, owners <= set(want) and SIGN_DER in owners and len(sites) >= 3, "write_der (raw pass-through) is used only by the four audited writers (directly or through helpers introduced for them)", expected=want, found=sorted(owners))
 
 
 def _edited(v):
